@@ -140,6 +140,19 @@ def one(rec, t, ti, name, obj, j, rng):
     except Exception:
         pass
     b_again = serialize(t, C, inst)
+    # ... nor may it matter that the writer already holds an earlier serialization of the same instance
+    if isinstance(b1, bytes):
+        w2 = t.EoWriter()
+        try:
+            C.serialize(w2, inst)
+            C.serialize(w2, inst)
+            twice = bytes(w2.to_bytearray())
+        except Exception as e:
+            twice = "raise:" + type(e).__name__
+        rec.count("same-writer-double-serializations")
+        if twice != b1 + b1:
+            case["xml"] = t.files
+            rec.violation("serialization-not-repeatable", "tree %d %s: serializing the instance twice into one writer gives %r, expected %r twice" % (ti, name, twice, b1), case)
     if b_again != b1:
         case["xml"] = t.files
         rec.violation("serialization-not-repeatable", "tree %d %s: after serializing the instance into a sanitising writer, a normal serialization gives %r instead of %r" % (ti, name, b_again, b1), case)
